@@ -300,3 +300,35 @@ func TestNestedRLockDeadlocksWhenAWriterSlipsIn(t *testing.T) {
 		t.Fatalf("want both the clean run and the deadlock, got %v", keys(o))
 	}
 }
+
+func TestTimersAndTickers(t *testing.T) {
+	o, _ := outcomes(t, 1<<20, func(rec func(string)) {
+		tm := NewTimer(time.Second)
+		if tm.Stop() {
+			rec("stopped")
+		}
+		done := make(chan struct{})
+		Go("w", func() { Close(done) })
+		sel := NewSelect()
+		SelRecv(sel, tm.C)
+		SelRecv(sel, done)
+		rec(fmt.Sprint("case", sel.Do()))
+	})
+	if len(o) != 1 || !o["stopped,case1|"+EndAllDone] {
+		t.Fatalf("a stopped timer must never fire: %v", keys(o))
+	}
+	o, _ = outcomes(t, 1<<20, func(rec func(string)) {
+		tk := NewTicker(10 * time.Millisecond)
+		a := Recv(tk.C)
+		b := Recv(tk.C)
+		tk.Stop()
+		rec(fmt.Sprint(b.Sub(a) >= 10*time.Millisecond, Elapsed() >= 20*time.Millisecond))
+		fired := make(chan bool, 1)
+		AfterFunc(time.Minute, func() { Send(fired, true) })
+		Recv(fired)
+		rec(fmt.Sprint(Elapsed() >= time.Minute))
+	})
+	if len(o) != 1 || !o["true true,true|"+EndAllDone] {
+		t.Fatalf("ticker/AfterFunc: %v", keys(o))
+	}
+}
